@@ -61,3 +61,26 @@ def spec_forward(lat, lon, cm, ell, prj, st):
     east, y, parts = TM.tm_forward_spec(lift(lat) * PI / 180, (lift(lon) - cm) * PI / 180, st['A'], st['alpha'], e,
                                         lift(prj.cmscale), lift(prj.falseeast), MSym)
     return east, y, parts
+
+
+# ------------------------------------------------------------------------------------------------ grid2geo (Newton loop cut)
+NEWTON = {}
+
+
+def cut_grid2geo(cv, ell_args):
+    """loop cut of the real grid2geo: the Newton `while` becomes havoc/if/back with the head state given by
+    uninterpreted functions of the loop's read-set (t1, e, e^2)"""
+    fns = {}
+
+    def hook(lid, names, vals, rnames, rvals):
+        rd = E.LOOPS[lid]['reads']
+        ent = E.LOOPS[lid]['entry']
+        args = [lift(ent['t'])] + ell_args(rd['ellipsoid'])
+        out = []
+        for n in names:
+            f = fns.setdefault(n, z3.Function('NEWTON_' + n, *([S.R] * (len(args) + 1))))
+            out.append(Sym(f(*args)))
+        NEWTON['fns'] = fns
+        NEWTON['args'] = args
+        return tuple(out)
+    return E.cut_loops(cv.grid2geo, cv, hook)
